@@ -21,9 +21,11 @@ Flag(c) ==
   /\ bad' = (IF Len(bad) < MaxBad THEN Append(bad, <<E.t, E.i, c>>) ELSE bad)
   /\ cnt' = [cnt EXCEPT !.flagged = @ + 1]
 Names == <<"codec", "page-version", "dictionary-encoding", "plain-encoding", "page-stats", "column-index", "bloom-presence", "bloom-size">>
-FirstDiff(a, b) ==
+\* sizeToo: the first row groups hold the same number of rows, so the filter sizes (a function of the row
+\* count) are comparable; the partition into row groups below the maximum may legitimately differ
+FirstDiff(a, b, sizeToo) ==
   IF Len(a) # Len(b) THEN "columns"
-  ELSE LET diffs == {<<c, k>> \in (1..Len(a)) \X (1..8) : a[c][k] # b[c][k]} IN
+  ELSE LET diffs == {<<c, k>> \in (1..Len(a)) \X (1..(IF sizeToo THEN 8 ELSE 7)) : a[c][k] # b[c][k]} IN
        IF diffs = {} THEN "none"
        ELSE Names[(CHOOSE p \in diffs : \A q \in diffs : p[2] <= q[2])[2]]
 RefClass(ref) ==
@@ -31,7 +33,7 @@ RefClass(ref) ==
   ELSE IF fast.err = 1 THEN "fast-path-error"
   ELSE IF fast.rows # ref.rows THEN "rows"
   ELSE IF \E i \in 1..Len(fast.rgSizes) : fast.rgSizes[i] > cur.maxRows THEN "rowgroup-limit"
-  ELSE LET dd == FirstDiff(fast.cols, ref.cols)
+  ELSE LET dd == FirstDiff(fast.cols, ref.cols, Len(fast.rgSizes) > 0 /\ Len(ref.rgSizes) > 0 /\ fast.rgSizes[1] = ref.rgSizes[1])
            path == IF fast.copied > 0 THEN "copy" ELSE IF fast.reenc > 0 THEN "reencode" ELSE "rows"
        IN IF dd = "none" THEN "ok" ELSE dd \o "@" \o path
 Init == /\ l = 1 /\ cur = [maxRows |-> 0] /\ fast = [err |-> 0] /\ bad = <<>>
